@@ -284,7 +284,7 @@ def check (ds : List Denom) (m : Mon) (pre : State) (op : Op) (accepted : Bool) 
     if !accepted then (m, if ledgerSame ds pre post then [] else [{ clause := "rejected-unchanged" }])
     else match op with
       | .next _ => checkNext ds m pre post
-      | .skip _ _ => (m, [])      -- several blocks in one observation: state clauses only (not generated for monitoring)
+      | .skip _ _ => (m, [{ clause := "multi-block-step-not-monitorable" }])   -- one observation per block is required
       | .respond provider (some rid) _ _ _ => (m, checkRespond ds pre post provider rid)
       | .withdraw owner provider => checkWithdraw ds m pre post owner (some provider)
       | .withdrawK owner provider => checkWithdraw ds m pre post owner provider
